@@ -8757,10 +8757,18 @@ tsk_ibd_finder_init(tsk_ibd_finder_t *self, const tsk_table_collection_t *tables
     tsk_identity_segments_t *result, double min_span, double max_time)
 {
     int ret = 0;
+    tsk_id_t ret_id;
     tsk_size_t num_nodes;
 
     tsk_memset(self, 0, sizeof(tsk_ibd_finder_t));
 
+    /* The algorithm indexes by the stored node ids and assumes left < right
+     * and sorted edges. */
+    ret_id = tsk_table_collection_check_integrity(tables, TSK_CHECK_EDGE_ORDERING);
+    if (ret_id != 0) {
+        ret = (int) ret_id;
+        goto out;
+    }
     if (min_span < 0) {
         ret = tsk_trace_error(TSK_ERR_BAD_PARAM_VALUE);
         goto out;
@@ -12125,12 +12133,20 @@ tsk_table_collection_link_ancestors(tsk_table_collection_t *self, tsk_id_t *samp
     tsk_flags_t TSK_UNUSED(options), tsk_edge_table_t *result)
 {
     int ret = 0;
+    tsk_id_t ret_id;
     ancestor_mapper_t ancestor_mapper;
 
     tsk_memset(&ancestor_mapper, 0, sizeof(ancestor_mapper_t));
 
     if (self->edges.metadata_length > 0) {
         ret = tsk_trace_error(TSK_ERR_CANT_PROCESS_EDGES_WITH_METADATA);
+        goto out;
+    }
+    /* The algorithm indexes by the stored node ids and assumes left < right
+     * and sorted edges. */
+    ret_id = tsk_table_collection_check_integrity(self, TSK_CHECK_EDGE_ORDERING);
+    if (ret_id != 0) {
+        ret = (int) ret_id;
         goto out;
     }
 
@@ -12611,6 +12627,12 @@ tsk_table_collection_delete_older(
     memset(&mutations, 0, sizeof(mutations));
     memset(&migrations, 0, sizeof(migrations));
 
+    /* Node times are looked up through the stored edge and mutation node ids */
+    ret_id = tsk_table_collection_check_integrity(self, 0);
+    if (ret_id != 0) {
+        ret = (int) ret_id;
+        goto out;
+    }
     ret = tsk_edge_table_copy(&self->edges, &edges, 0);
     if (ret != 0) {
         goto out;
